@@ -18,7 +18,7 @@ USIZE_MAX = (1 << 64) - 1
 BIG_LIMITS = (1 << 20, 1 << 28, 1 << 32, 1 << 40, USIZE_MAX)
 LOS_NAMES = ("los", "pageprotect")
 META = {
-    "text": "Lookup model (Model/IntPtr.lean): `is_mmtk_object` (SFT dispatch + VO bit), the data-address view of `find_prev_non_zero_value_simple` on the VO bits with its mapped-grain cache, `vo_bit::find_object_from_internal_pointer` (+ `is_internal_ptr`), the per-policy wrappers (Immix / native mark-sweep cap the limit by the maximal object size, the empty SFT answers None) and the page walk of `LargeObjectSpace::find_object_from_internal_pointer`. Theorems for every bitmap: `isMmtkObject_iff` / `_valid` (Some(addr) iff the address is the reference of a valid object), `findPrev_spec` (nearest set bit at or below p, less than `limit` bytes below), `findFromInternal_spec` (with non-overlapping objects: o iff ref(o) <= p < start(o)+size(o) and p - ref(o) < n, else None), `findLos_spec` (first VO-set address of the nearest page >= align_down(p-n) with a non-zero first VO word, iff p is inside that object), `findLos_none_of_no_vo` (no VO bit at or below p's page: None for EVERY limit, no hypothesis on what is mapped — a stale pointer into the lowest large object), `findLos_reads_mapped_only` (memory safety of the page walk as non-interference: with grain-uniform mapping the answer does not depend on VO words of unmapped pages; `hoisted_reads_unmapped` = decide-witness that testing is_mapped once before the loop breaks it). Real heaps: after every forced exhaustive GC of generated programs on all 11 plans x {1,4} workers a probe list — per object: start, ref-8, ref, ref+8, a middle word, last word, one-past-end; gaps; page and chunk edges; 8, space start +-8, space end, usize::MAX & !7, side-metadata addresses, unaligned interior pointers; n in {1, 8, 9, size, 4096, 2^20}; stale pointers: for large objects that were swept (always the lowest-addressed one ever allocated, a few others) start / reference / middle / last word / next page x n in {2^20, 2^28, 2^32, 2^40, usize::MAX}, and addresses in the LOS above every live large object, with `ismapped` asked for every mmap grain the walk enters; program class los-stale (lowest large object dies first, then all, then the pages are reused) — is sent as `ismo` / `findint`; a process that dies inside a `findint` is the violation gc:findint-crash (program = replay); the Lean monitor evaluates the model on its valid-object set (snapshot + never-collected objects) with the chunk map asked through `ismapped`, an independent Python oracle evaluates the property statement.",
+    "text": "Lookup model (Model/IntPtr.lean): `is_mmtk_object` (SFT dispatch + VO bit), the data-address view of `find_prev_non_zero_value_simple` on the VO bits with its mapped-grain cache, `vo_bit::find_object_from_internal_pointer` (+ `is_internal_ptr`), the per-policy wrappers (Immix / native mark-sweep cap the limit by the maximal object size, the empty SFT answers None) and the page walk of `LargeObjectSpace::find_object_from_internal_pointer`. Theorems for every bitmap: `isMmtkObject_iff` / `_valid` (Some(addr) iff the address is the reference of a valid object), `findPrev_spec` (nearest set bit at or below p, less than `limit` bytes below), `findFromInternal_spec` (with non-overlapping objects: o iff ref(o) <= p < start(o)+size(o) and p - ref(o) < n, else None), `findLos_spec` (first VO-set address of the nearest page >= align_down(p-n) with a non-zero first VO word, iff p is inside that object), `findLos_none_of_no_vo` (no VO bit at or below p's page: None for EVERY limit, no hypothesis on what is mapped — a stale pointer into the lowest large object), `findLos_reads_mapped_only` (memory safety of the page walk as non-interference: with grain-uniform mapping the answer does not depend on VO words of unmapped pages; `hoisted_reads_unmapped` = decide-witness that testing is_mapped once before the loop breaks it). Real heaps: after every forced exhaustive GC of generated programs on all 11 plans x {1,4} workers a probe list — per object: start, ref-8, ref, ref+8, a middle word, last word, one-past-end; gaps; page and chunk edges; 8, space start +-8, space end, usize::MAX & !7, side-metadata addresses, unaligned interior pointers; n in {1, 8, 9, size, 4096, 2^20}; stale pointers: for large objects that were swept (always the lowest-addressed one ever allocated, a few others) start / reference / middle / last word / next page x n in {2^20, 2^28, 2^32, 2^40, usize::MAX}, and addresses in the LOS above every live large object, with `ismapped` asked for every mmap grain the walk enters; program class los-stale (first a `rawalloc` = memory between alloc and post_alloc, no VO bit; then the lowest large object dies first, then all, then the pages are reused) — is sent as `ismo` / `findint`; a process that dies inside a `findint` is the violation gc:findint-crash (program = replay); the Lean monitor evaluates the model on its valid-object set (snapshot + never-collected objects) with the chunk map asked through `ismapped`, an independent Python oracle evaluates the property statement.",
     "note": "Level: proof of the lookup algorithm over arbitrary bitmaps, partial w.r.t. the code. Deviation kept under the stable key gc:findint-los-limit: the large-object space applies max_search_bytes to pages, so an interior pointer more than n bytes above the reference is still resolved (`los_limit_witness`, `findLos_limit_partial`). `is_mmtk_object` has the documented precondition addr != 0 and word-aligned (debug assertion): such addresses are only sent to `findint`.",
     "technique": "Lean 4 proof (search loops with explicit fuel, for all bitmaps) + exact differential of real lookups against the executable model + independent oracle",
     "category": "proof",
@@ -158,7 +158,24 @@ def stale_probes(ctx, rnd, asked, refoff, live_refs, others=3):
             return
 
 
-DIRECTIVES = {"ip": d_ip, "vo": C07.d_vo}
+def d_rawprobe(ctx, args):
+    """!rawprobe <size>: `rawalloc` (memory_manager::alloc without post_alloc) of a large object, then lookups into it:
+    memory handed out, no VO bit yet — every answer must be None unless the pointer lies in a valid object"""
+    size = int(args[0])
+    res = ctx.send(f"rawalloc 0 {size} Los")
+    if not res or not res.startswith("raw="):
+        return
+    a = int(res.split()[0][4:], 16)
+    if not any(o == "spaces" for o, _ in ctx.pairs):
+        ctx.send("spaces")
+    asked = {}
+    for k in (0, 8, (size // 16) * 8, size - 8, (size + 4095) & ~4095):
+        for n in (8, 4096) + BIG_LIMITS:
+            if _walk_known(ctx, asked, a + k, n) and ctx.send(f"findint {a + k:#x} {n}") is None:
+                return
+
+
+DIRECTIVES = {"ip": d_ip, "vo": C07.d_vo, "rawprobe": d_rawprobe}
 
 
 def with_ip(ops, seed, nobj):
@@ -198,8 +215,11 @@ def gen_los_stale(rnd, plan, info, heap, workers):
     (no valid object left in the LOS), then the freed pages are reused; probes after every forced exhaustive GC"""
     g = G.Gen(rnd, plan, info, "fs_main", heap)
     g.anchor()
+    # the very first large allocation of the space, between `alloc` and `post_alloc`: nothing valid at or below it
+    g.ops.append(f"!rawprobe {rnd.choice([9000, 20000, 70000])}")
     sizes = [rnd.choice([9000, 12280, 20000, 40000, 70000, 200000]) for _ in range(rnd.randrange(4, 9))]
     xs = [g.alloc(0, rnd.choice([0, 1, 2]), sz, "Los", slot=k) for k, sz in enumerate(sizes)]
+    g.ops.append(f"!rawprobe {rnd.choice([9000, 40000])}")          # above live large objects
     g.ops.append("gc 0 1")
     g.root(0, 0, None)                                   # the lowest large object dies
     if len(xs) > 3:
@@ -311,6 +331,8 @@ def stats(traces):
                 bump("ismo:" + ("object" if res.isdigit() else res))
             elif t[0] == "ismapped":
                 bump("ismapped:" + res)
+            elif t[0] == "rawalloc":
+                bump("rawalloc:" + ("ok" if res.startswith("raw=") else res.split()[0]))
     return ev, len(nontriv), dist
 
 
